@@ -25,6 +25,20 @@ def check(ctx):
                     C.rng.shuffle(pool)
                     new = pool[:len(first_functions)] if k % 2 else pool[:C.rng.randint(1, 5)]
                     sp.functions = new
+                inplace = False
+                if k % 3 == 2 and len(sp.functions) >= 1:
+                    # … or the list the space holds is edited in place (reversed, sorted, one entry replaced): what grows
+                    # afterwards still follows the list as it is now
+                    inplace = True
+                    how_ = k % 9
+                    if how_ == 2:
+                        sp.functions.reverse()
+                    elif how_ == 5:
+                        sp.functions.sort()
+                    else:
+                        cur = sp.functions[0]
+                        other = [f for f in T.OPS if (f in T.UN) != (cur in T.UN)]
+                        sp.functions[0] = C.rng.choice(other)
                 sc.log.clear()
                 err = None
                 try:
@@ -36,12 +50,12 @@ def check(ctx):
                 sc.remove()
             if err is not None:
                 C.issue('grow-raised', 'oracle', dict(how='grow', functions=list(sp.functions), n_terminals=sp.n_terminals, min_depth=sp.min_depth,
-                                                      max_depth=sp.max_depth, draws=draws, first_functions=first_functions), error=err)
+                                                      max_depth=sp.max_depth, draws=draws, first_functions=first_functions, inplace=inplace), error=err)
                 continue
             real = T.canon(t)
             model = gpops.model_grow(drv, sp, draws, sp.max_depth - sp.min_depth)
             rp = dict(how='grow', functions=list(sp.functions), n_terminals=sp.n_terminals, min_depth=sp.min_depth,
-                      max_depth=sp.max_depth, draws=draws, first_functions=first_functions)
+                      max_depth=sp.max_depth, draws=draws, first_functions=first_functions, inplace=inplace)
             if model != real:
                 C.issue('grow-mismatch', 'correspondence', rp, model=model, real=real)
             wmodel = gpops.model_grow(drv, sp, draws, sp.max_depth - sp.min_depth, cmd='w.grow')
@@ -151,6 +165,17 @@ def check(ctx):
                     C.issue(i['what'], 'oracle', i['replay'], detail=i)
             C.case(key=('run', c['seed']), nontrivial=r['error'] is None, kind='gp-run')
         C.extra['forests_checked_in_runs'] = forests
+        # the population loops themselves (`_crossover`, `_mutation`) under a scripted tournament, also on populations as deep
+        # as bloat leaves them, with individuals selected twice: the forest stays disjoint and the loops are the ones the
+        # translator read (compared with `Gen.crossLoop` / `Gen.mutLoop` on the same draws)
+        from props import c09 as _c09
+        for k in range(16 if ctx['tier'] == 'quick' else 160):
+            n = C.rng.randint(6, 12)
+            npairs = C.rng.choice([2, 2, 3])
+            sel = C.rng.sample(range(n), 2 * npairs) if k % 3 else [C.rng.randrange(n) for _ in range(2 * npairs)]
+            _c09.check_crossover(C, n, sel, C.rng.randrange(1 << 30), drv=drv, deep=(k % 2 == 0))
+            selm = [C.rng.randrange(n) for _ in range(C.rng.randint(2, 5))]
+            _c09.check_mutation(C, drv, n, selm, C.rng.randrange(1 << 30), single=[selm[0]] if k % 2 == 0 else ())
     finally:
         drv.close()
     return C.result()
@@ -178,6 +203,9 @@ def replay(prop, payload):
     L = lib.load()
     gp = L['kinds']['GP']()
     import random
+    if payload['how'] in ('crossover', 'mutation'):
+        from props import c09 as _c09
+        return _c09.replay(prop, payload)
     if payload['how'] == 'cross':
         f, m = decode(payload['father']), decode(payload['mother'])
         sc = gpops.Script(random.Random(0), forced=[payload['pf'], payload['pm']]).install()
@@ -197,7 +225,7 @@ def replay(prop, payload):
         return bool(r['issues']['C08'])
     if payload['how'] == 'grow':
         rng = random.Random(0)
-        sc = gpops.Script(rng, forced=list(payload['draws'])).install()
+        sc = gpops.Script(rng, clamp=True).install()      # (the constructor grows the initial trees with unforced draws)
         try:
             np = L['np']
             np.random.seed(0)
@@ -205,7 +233,10 @@ def replay(prop, payload):
                                 min_depth=payload['max_depth'], max_depth=payload['max_depth'],
                                 functions=payload.get('first_functions', payload['functions']), lower_bound=[0.0], upper_bound=[1.0])
             if payload.get('first_functions', payload['functions']) != payload['functions']:
-                sp.functions = list(payload['functions'])
+                if payload.get('inplace'):
+                    sp.functions[:] = list(payload['functions'])
+                else:
+                    sp.functions = list(payload['functions'])
             sc.forced = list(payload['draws'])
             try:
                 t = sp.grow(payload['min_depth'], payload['max_depth'])
